@@ -91,7 +91,7 @@ impl Property for C07 {
         ]
     }
     fn cases(&self, tier: Tier) -> u32 {
-        tier.pick(48_000, 4_800_000)
+        tier.pick(200_000, 8_000_000)
     }
     fn strategy(&self, tier: Tier) -> BoxedStrategy<Case> {
         (fmt_input::case(tier), any::<u8>(), any::<u16>(), any::<u16>())
@@ -212,8 +212,11 @@ impl Property for C07 {
         // Formatter-output defects (C05) inside the replaced region are not range-formatting defects: when formatting
         // the whole document already violates C05 at a place inside the region, the case is excluded here (counted).
         let c05_in_region = |splice_sig: &String| -> bool {
-            if a.multi_tag_lines > 0 {
-                return true; // output depends on HashMap order (see C05): not a range-formatting matter
+            if crate::props::c05::open_c05_signatures().contains(splice_sig) {
+                return true; // the same formatter-output defect family is an open C05 finding
+            }
+            if a.risky_doc_blocks > 0 {
+                return true; // output may depend on HashMap order (see C05): not a range-formatting matter
             }
             let Ok(full) = crate::props::c05::run_formatter(text, d.level, &d.cfg) else { return true };
             let ft = tokcanon::parse(&full, d.level);
